@@ -140,6 +140,10 @@ def _one(c):
   # attributes of the level set
   cmp('centers', coords.centers, [float(v) for v in centers])
   cmp('thickness', coords.layer_thickness, [(c['b'][k + 1] - c['b'][k]) / den for k in range(K)])
+  if hasattr(coords, 'center_to_center') and K >= 2:
+    cmp('center_to_center', coords.center_to_center, [float(centers[k + 1] - centers[k]) for k in range(K - 1)], scale=1.0)
+  if hasattr(coords, 'internal_boundaries') and K >= 2:
+    cmp('internal_boundaries', coords.internal_boundaries, [c['b'][k] / den for k in range(1, K)])
   if coords.layers != K:
     bad('layers', f'{coords.layers} != {K}')
   return out
